@@ -117,6 +117,18 @@ Theorem C20_parser_events_with_skipped_tokens_are_well_nested :
   ok_events (stream_of c') = true /\ in_input eoi_off (stream_of c') = true.
 Proof. exact pxrun_events_nested. Qed.
 
+(* the same with the condition on the machine (end-of-input is only shifted into the end state) *)
+Theorem C20_parser_events_with_skipped_tokens_are_well_nested_eoi :
+  forall m evt rl eoi_off fuel start end_state lex o c',
+  nested_table evt -> eoi_stops m end_state ->
+  Forall (fun t => t_sym t <> 0) (reals lex) ->
+  ordered (map l_range lex) eoi_off ->
+  Forall (fun r => 0 <= fst r) (map l_range lex) -> 0 <= eoi_off ->
+  pxrun fuel m evt true start end_state eoi_off lex = (o, c') ->
+  Forall (fun e => wf_tree evt rl (x_tree e)) (pc_stack c') ->
+  ok_events (stream_of c') = true /\ in_input eoi_off (stream_of c') = true.
+Proof. exact pxrun_events_nested_eoi. Qed.
+
 (* and the AST builder fed with that stream builds a well-formed forest with exactly the reported nodes and tokens *)
 Theorem C20_parser_with_skipped_tokens_and_builder :
   forall m evt rl eoi_off fuel start end_state lex o c',
@@ -140,10 +152,12 @@ Theorem C20_all_skipped_tokens_reported :
 Proof. exact pxrun_all_reported. Qed.
 
 (* NOT proved here (partial): the same for the loop with error recovery (Gram/Recover.v: the error entry pushed by
-   recoverFromError spans dropped stack entries and skipped tokens), for injected/reported tokens and for the
+   recoverFromError spans dropped stack entries and skipped tokens; flush is also called with the error symbol there
+   and may keep tokens pending), for reported REAL tokens (reportConsumedNext of mapped tokens) and for the
    hand-written js loop; and for parsers without fixWhitespace (there a node ending with an empty symbol extends
-   over the following whitespace, see C02). These are monitored on every run: ok_events and in_input are
-   evaluated on the listener callbacks of the shipped tm, js, json and test parsers on valid and broken inputs. *)
+   over the following whitespace, see C02, and C20_skipped_tokens_without_fixWhitespace_refuted above). These are
+   monitored on every run: ok_events and in_input are evaluated on the listener callbacks of the shipped tm, js,
+   json and test parsers on valid and broken inputs, and of generated parsers (c20.gen). *)
 
 (* non-vacuity: a stream with nested, empty and out-of-order nodes *)
 Example C20_example :
@@ -191,6 +205,25 @@ Example C20_skipped_example :
      BNode 9 11 13 []; BNode 3 14 14 []].
 Proof. vm_compute. repeat split; reflexivity. Qed.
 
+(* fixWhitespace is necessary once skipped tokens are reported (the property's scope: "trims trailing whitespace from
+   node ranges or reports no skipped tokens"): the same machine, table and lexer output WITHOUT fixWhitespace -- the
+   nodes ending with the empty N0 extend to the offset of end-of-input, T1[7,14) and T1[1,14) contain the trailing
+   comment [11,13) but are reported before it (it is flushed by the shift of end-of-input) *)
+Theorem C20_skipped_tokens_without_fixWhitespace_refuted :
+  exists m evt eoi_off fuel start end_state lex c',
+  nested_table evt /\ Forall (fun t => t_sym t <> 0) (reals lex) /\ ordered (map l_range lex) eoi_off /\
+  pxrun fuel m evt false start end_state eoi_off lex = (Accept, c') /\
+  nodes_of (pc_events c') = [(3, 14, 14); (2, 8, 11); (1, 7, 14); (2, 3, 5); (1, 1, 14)] /\
+  skips_of (pc_events c') = skipped lex /\
+  ok_events (nodes_of (pc_events c')) = true /\ ok_events (stream_of c') = false.
+Proof.
+  exists m0, evt0, 14, 100%nat, 0, 6, lex0, (snd (pxrun 100 m0 evt0 false 0 6 14 lex0)).
+  split; [apply nested_tableb_sound; vm_compute; reflexivity|].
+  split; [repeat constructor; discriminate|].
+  split; [vm_compute; repeat split; discriminate|].
+  vm_compute. repeat split; reflexivity.
+Qed.
+
 Print Assumptions C20_builder_correct.
 Print Assumptions C20_parser_events_are_well_nested.
 Print Assumptions C20_parser_events_are_well_nested_eoi.
@@ -202,3 +235,5 @@ Print Assumptions C20_flushed_stream_is_merge.
 Print Assumptions C20_parser_events_with_skipped_tokens_are_well_nested.
 Print Assumptions C20_parser_with_skipped_tokens_and_builder.
 Print Assumptions C20_all_skipped_tokens_reported.
+Print Assumptions C20_parser_events_with_skipped_tokens_are_well_nested_eoi.
+Print Assumptions C20_skipped_tokens_without_fixWhitespace_refuted.
